@@ -39,36 +39,52 @@ func Distinct(v reflect.Value) interface{} {
 
 	if jtypes.IsArray(v) {
 		items := arrayify(v)
-		visited := make(map[interface{}]struct{})
 		distinctValues := reflect.MakeSlice(reflect.SliceOf(typeInterface), 0, 0)
+		var seen []reflect.Value
 
 		for i := 0; i < items.Len(); i++ {
 			item := jtypes.Resolve(items.Index(i))
 
-			if jtypes.IsMap(item) {
-				// We can't hash a map, so convert it to a
-				// string that is hashable
-				mapItem := fmt.Sprint(item.Interface())
-				if _, ok := visited[mapItem]; ok {
-					continue
-				}
-				visited[mapItem] = struct{}{}
-				distinctValues = reflect.Append(distinctValues, item)
-
+			// Compare by value. Arrays and objects cannot be
+			// used as map keys, and their printed form does
+			// not distinguish e.g. {"a":1} from {"a":"1"}.
+			if containsValue(seen, item) {
 				continue
 			}
 
-			if _, ok := visited[item.Interface()]; ok {
-				continue
-			}
-
-			visited[item.Interface()] = struct{}{}
+			seen = append(seen, item)
 			distinctValues = reflect.Append(distinctValues, item)
 		}
 		return distinctValues.Interface()
 	}
 
 	return nil
+}
+
+func containsValue(values []reflect.Value, item reflect.Value) bool {
+	for _, v := range values {
+		if equalValues(v, item) {
+			return true
+		}
+	}
+	return false
+}
+
+func equalValues(a, b reflect.Value) bool {
+	if !a.IsValid() || !b.IsValid() {
+		return a.IsValid() == b.IsValid()
+	}
+	if a.Type() != b.Type() {
+		return false
+	}
+	if jtypes.IsCallable(a) {
+		// Functions are only equal to themselves.
+		return a.CanAddr() && b.CanAddr() && a.Addr().Pointer() == b.Addr().Pointer()
+	}
+	if !a.CanInterface() || !b.CanInterface() {
+		return false
+	}
+	return reflect.DeepEqual(a.Interface(), b.Interface())
 }
 
 // Append (golint)
